@@ -127,25 +127,29 @@ fn main() {
         vec![65500, 65512, 65515, 65516, 65520, 65528, 65532, 65535, 65536, 65540, 70000, 200000]
     };
     for t in targets {
-        // attribute bytes t4 = t rounded down to a multiple of 4 (TLVs are padded), split into DATA attributes
+        // attribute bytes t4 = t rounded down to a multiple of 4 (TLVs are padded), split into DATA attributes; the LAST
+        // value is 0, 1, 2 or 3 bytes short of alignment (its padding completes t4): the limit must count the padding
         let t4 = t / 4 * 4;
-        let mut l = vec![];
-        let mut left = t4;
-        while left > 0 {
-            let chunk = left.min(*rng.pick(&[20004usize, 40000, 65532, 8]));
-            if chunk < 4 { break }
-            let vlen = chunk - 4 - if rng.chance(1, 3) && chunk >= 8 { rng.below(4) as usize } else { 0 };
-            l.push(E::Plain(0x0013, vec![(left % 251) as u8; vlen]));
-            left -= 4 + vlen + wire::pad(vlen);
-        }
-        if t % 4 == 1 { l.push(E::Fp) }
-        let need = size_of(&l);
-        let txid = [9u8; 12];
-        for buflen in [need, need + 1, need - 1, need + 4096, 70000] {
-            idx += 1;
-            if idx % args.shards != args.shard { continue }
-            run_case(&mut out, 1, 0, &txid, buflen, "r", &l);
-            large += 1;
+        for k in 0..4usize {
+            let mut l = vec![];
+            let mut left = t4;
+            while left > 0 {
+                let chunk = left.min(*rng.pick(&[20004usize, 40000, 65532, 65536, 8]));
+                if chunk < 8 { break }
+                let last = chunk == left;
+                let vlen = chunk - 4 - if last { k } else { 0 };
+                l.push(E::Plain(0x0013, vec![(left % 251) as u8; vlen]));
+                left -= chunk;
+            }
+            let need = size_of(&l);
+            let txid = [9u8; 12];
+            let lens: Vec<usize> = if k == 0 { vec![need, need + 1, need - 1, need + 4096, 70000] } else { vec![need, 70000] };
+            for buflen in lens {
+                idx += 1;
+                if idx % args.shards != args.shard { continue }
+                run_case(&mut out, 1, 0, &txid, buflen, "r", &l);
+                large += 1;
+            }
         }
     }
     // a single value beyond 65,535 bytes
